@@ -1853,6 +1853,17 @@ namespace bloch::runtime {
     }
 
     Value RuntimeEvaluator::call(FunctionDeclaration* fn, const std::vector<Value>& args) {
+        // A top-level function has no class context, whoever calls it: bare names in its body
+        // must not resolve to the statics of the calling method's class, and 'new T()' must
+        // not see the caller's type arguments.
+        auto prevClass = m_currentClassCtx;
+        bool prevStatic = m_inStaticContext;
+        bool prevCtor = m_inConstructor;
+        bool prevDtor = m_inDestructor;
+        m_currentClassCtx = nullptr;
+        m_inStaticContext = false;
+        m_inConstructor = false;
+        m_inDestructor = false;
         // Bind parameters, run the body until a return is hit, then unwind.
         beginFrame();
         for (size_t i = 0; i < fn->params.size() && i < args.size(); ++i) {
@@ -1881,6 +1892,10 @@ namespace bloch::runtime {
         }
         endFrame();
         m_hasReturn = prevReturn;
+        m_inDestructor = prevDtor;
+        m_inConstructor = prevCtor;
+        m_inStaticContext = prevStatic;
+        m_currentClassCtx = prevClass;
         return ret;
     }
 
